@@ -88,26 +88,26 @@ end agg
 
 /-! ### the comparison operators read from the source -/
 
-theorem cmp_MergeCounter (a b : Int) : soleCmp Facts.ops_MergeCounter a b = decide (a < b) := by
-  simp [Facts.ops_MergeCounter, soleCmp, cmpOp]
-theorem cmp_MergeTimer (a b : Int) : soleCmp Facts.ops_MergeTimer a b = decide (a < b) := by
-  simp [Facts.ops_MergeTimer, soleCmp, cmpOp]
-theorem cmp_MergeSet (a b : Int) : soleCmp Facts.ops_MergeSet a b = decide (a < b) := by
-  simp [Facts.ops_MergeSet, soleCmp, cmpOp]
+theorem cmp_MergeCounter (a b : Int) : relCmp Facts.rel_MergeCounter "<" a b = decide (a < b) := by
+  simp [Facts.rel_MergeCounter, relCmp, cmpOp]
+theorem cmp_MergeTimer (a b : Int) : relCmp Facts.rel_MergeTimer "<" a b = decide (a < b) := by
+  simp [Facts.rel_MergeTimer, relCmp, cmpOp]
+theorem cmp_MergeSet (a b : Int) : relCmp Facts.rel_MergeSet "<" a b = decide (a < b) := by
+  simp [Facts.rel_MergeSet, relCmp, cmpOp]
 /-- `MergeGauge` replaces the value when the incoming timestamp is newer; on equal timestamps either
 choice satisfies C07, so both `<` and `<=` are accepted here. -/
 theorem cmp_MergeGauge (a b : Int) :
-    (soleCmp Facts.ops_MergeGauge a b = true → a ≤ b) ∧ (a < b → soleCmp Facts.ops_MergeGauge a b = true) := by
-  simp [Facts.ops_MergeGauge, soleCmp, cmpOp]; omega
-theorem cmp_receiveCounter (a b : Int) : soleCmp Facts.ops_receiveCounter a b = decide (a > b) := by
-  simp [Facts.ops_receiveCounter, soleCmp, cmpOp]
-theorem cmp_receiveTimer (a b : Int) : soleCmp Facts.ops_receiveTimer a b = decide (a > b) := by
-  simp [Facts.ops_receiveTimer, soleCmp, cmpOp]
-theorem cmp_receiveSet (a b : Int) : soleCmp Facts.ops_receiveSet a b = decide (a > b) := by
-  simp [Facts.ops_receiveSet, soleCmp, cmpOp]
+    (relCmp Facts.rel_MergeGauge "<" a b = true → a ≤ b) ∧ (a < b → relCmp Facts.rel_MergeGauge "<" a b = true) := by
+  simp [Facts.rel_MergeGauge, relCmp, cmpOp]; omega
+theorem cmp_receiveCounter (a b : Int) : relCmp Facts.rel_receiveCounter ">" a b = decide (a > b) := by
+  simp [Facts.rel_receiveCounter, relCmp, cmpOp]
+theorem cmp_receiveTimer (a b : Int) : relCmp Facts.rel_receiveTimer ">" a b = decide (a > b) := by
+  simp [Facts.rel_receiveTimer, relCmp, cmpOp]
+theorem cmp_receiveSet (a b : Int) : relCmp Facts.rel_receiveSet ">" a b = decide (a > b) := by
+  simp [Facts.rel_receiveSet, relCmp, cmpOp]
 theorem cmp_receiveGauge (a b : Int) :
-    (soleCmp Facts.ops_receiveGauge a b = true → a ≥ b) ∧ (a > b → soleCmp Facts.ops_receiveGauge a b = true) := by
-  simp [Facts.ops_receiveGauge, soleCmp, cmpOp]; omega
+    (relCmp Facts.rel_receiveGauge ">=" a b = true → a ≥ b) ∧ (a > b → relCmp Facts.rel_receiveGauge ">=" a b = true) := by
+  simp [Facts.rel_receiveGauge, relCmp, cmpOp]; omega
 
 /-! ### maxima -/
 
